@@ -5,7 +5,9 @@ CONSTANTS
   RFroms = {"exact", "absent", "stranger", "bareOf"}
   Types = {"result", "error"}
   OpenKinds = {"plain", "sm", "smr", "resumed"}
+  Cids = {"fresh", "empty", "dup"}
+  IdRule = "replace"
   MaxHist = 99
-VIEW GenView
+VIEW GenViewNoCid
 ACTION_CONSTRAINT EmitBehaviour
 CHECK_DEADLOCK FALSE
